@@ -125,28 +125,7 @@ def _depends_on(expr, rootname, region, depth=0):
     return False
 def r_C13(root):
     t = load(root, M); out = []; inst = 0
-    cp = find(t, "parse_tree_to_objgraph.call_obj_processors")
-    rec = [c for c in calls(cp, own=True) if callee_name(c) == "call_obj_processors"]
-    prc = [c for c in calls(cp, own=True) if callee_name(c) == "process"]
-    if len(rec) < 2 or len(prc) < 2: raise AnalysisError("call_obj_processors: expected 2 recursive calls and 2 process calls")
-    inst += 2
-    if max(c.lineno for c in rec) > min(c.lineno for c in prc): out.append(Finding("C13", "C13.a", M, "call_obj_processors", "process(...)", "an object's processor runs before its children are processed"))
-    own_call = next(c for c in prc if "current_metaclass_of_obj.__name__" in ast.unparse(c)); gr_call = next(c for c in prc if "metaclass_of_grammar_rule.__name__" in ast.unparse(c))
-    if own_call.lineno > gr_call.lineno: out.append(Finding("C13", "C13.a", M, "call_obj_processors", ast.unparse(gr_call)[:60], "grammar-rule processor runs before the object's own-rule processor"))
-    # replacement in both branches
-    fi_c = sem.info(cp)
-    for c in rec:
-        inst += 1
-        tgt = stmt_of(c); blk = block_of(tgt)
-        stores = [x for st_ in blk for x in ast.walk(st_) if (isinstance(x, ast.Assign) and isinstance(x.targets[0], ast.Subscript) and ast.unparse(x.value) == "result") or (isinstance(x, ast.Call) and callee_name(x) == "setattr" and x.args and ast.unparse(x.args[-1]) == "result")]
-        def nonnull(x):
-            gs = [(ast.unparse(t).replace(" ", ""), pol) for t, pol in fi_c.guards(x)]
-            return ("resultisnotNone", True) in gs or ("resultisNone", False) in gs
-        ok = any(nonnull(x) and x.lineno > tgt.lineno for x in stores)
-        if not ok: out.append(Finding("C13", "C13.b", M, "call_obj_processors", ast.unparse(tgt)[:70], "a processor's replacement value is not stored back"))
-    # descent containment-only (C05.a instance)
-    for c in rec:
-        if not any(a.replace(" ", "").endswith(".cont") and pol for a, pol in fi_c.atoms_at(c)): out.append(Finding("C13", "C13.c", M, "call_obj_processors", ast.unparse(c)[:60], "processor walk descends through a non-containment attribute"))
+    # the walker itself (order, replacement, containment) is decided by evaluation: sa/rules/c13.py
     # ordering in the driver
     drv = find(t, "parse_tree_to_objgraph"); inst += 1
     call = next((c for c in calls(drv, own=True) if callee_name(c) == "call_obj_processors"), None)
@@ -161,41 +140,7 @@ def r_C13(root):
     return inst, out
 def r_C07(root):
     out = []; inst = 0
-    t = load(root, "textx/scoping/providers.py"); fn = find(t, "PlainName.__call__")
-    if "multi_metamodel_support" not in ast.unparse(fn): raise AnalysisError("PlainName: default branch not found")
-    # decision table of the whole provider body; the cardinality of the candidate list decides the outcome
-    body = [b for b in fn.body if not isinstance(b, (ast.FunctionDef, ast.Import, ast.ImportFrom)) and not (isinstance(b, ast.Expr) and isinstance(b.value, ast.Constant))]
-    names, rows = atoms.table(body)
-    import operator as op
-    OPS = {ast.Eq: op.eq, ast.NotEq: op.ne, ast.Lt: op.lt, ast.LtE: op.le, ast.Gt: op.gt, ast.GtE: op.ge}
-    for n_, want in ((0, "none"), (1, "one"), (2, "raise")):
-        inst += 1
-        def holds(a):
-            tt = ast.parse(a, mode="eval").body
-            if ast.unparse(tt).replace(" ", "") == "self.multi_metamodel_support": return True
-            if isinstance(tt, ast.Compare) and isinstance(tt.ops[0], ast.Is) and isinstance(tt.left, ast.Name) and tt.left.id in {x.arg for x in fn.args.args} and isinstance(tt.comparators[0], ast.Constant) and tt.comparators[0].value is None: return False    # the provider is called with a reference
-            if isinstance(tt, ast.Compare) and isinstance(tt.left, ast.Call) and getattr(tt.left.func, "id", "") == "len" and isinstance(tt.comparators[0], ast.Constant): return OPS[type(tt.ops[0])](n_, tt.comparators[0].value)
-            if isinstance(tt, ast.Name): return n_ > 0
-            if ast.unparse(tt).endswith(".debug"): return False          # debug output off
-            raise AnalysisError("PlainName: unsupported atom " + a)
-        sel = atoms.select(rows, holds)
-        if len(sel) != 1: raise AnalysisError("PlainName: %d paths for cardinality %d" % (len(sel), n_))
-        row = sel[0]
-        val = None
-        if row.exit_kind == "return" and row.exit_node.value is not None:
-            v = row.exit_node.value
-            if isinstance(v, ast.Name):
-                asg = [e for e in row.effects if isinstance(e, ast.Assign) and any(isinstance(tg, ast.Name) and tg.id == v.id for tg in e.targets)]
-                val = ast.unparse(asg[-1].value) if asg else v.id
-            else: val = ast.unparse(v)
-        got = "raise" if row.exit_kind == "raise" and "TextXSemanticError" in row.exit_text() else ("one" if val is not None and val.endswith("[0]") else "none" if val == "None" or (row.exit_kind in ("fall",) or (row.exit_kind == "return" and row.exit_node.value is None)) else "?")
-        ob("C07", "C07.a", "textx/scoping/providers.py", "PlainName.__call__", "%s candidate(s) -> %s" % (n_ if n_ < 2 else ">=2", got), got == want)
-        if got != want: out.append(Finding("C07", "C07.a", "textx/scoping/providers.py", "PlainName.__call__", row.exit_text() or (val or ""), "with %s matching object(s) the provider yields %s, documented %s" % (n_ if n_ < 2 else ">=2", got, want)))
-    sel = next((c for c in calls(fn, own=True) if callee_name(c) == "get_children"), None)
-    inst += 1
-    su = ast.unparse(sel.args[0]) if sel else ""
-    if not ("obj_ref.obj_name" in su and "textx_isinstance(x, obj_ref.cls)" in su and "get_model(obj)" in ast.unparse(sel.args[1])):
-        out.append(Finding("C07", "C07.a", "textx/scoping/providers.py", "PlainName.__call__", su[:100], "selector must test name equality and type conformance over the referencing model"))
+    # C07.a / C07.c (PlainName itself) are decided by evaluation: sa/rules/c07.py
     # b: builtins fallback
     fnr, loop = _resolver_loop(root); inst += 2
     fb = [s for s in ast.walk(loop) if isinstance(s, ast.Assign) and ast.unparse(s.targets[0]) == "resolved" and "builtins[" in ast.unparse(s.value)]
@@ -333,7 +278,7 @@ def r_C05_C10(root):
     if not rets or not all(any(a.replace(" ", "").startswith("textx_isinstance(") and pol for a, pol in fiq.atoms_at(r)) for r in rets): out.append(Finding("C10", "C10.b", P, "FQN._find_obj_fqn", "return p", "match returned without type conformance test"))
     return inst, out
 def r_C02cd(root):
-    pn = find(load(root, M), "parse_tree_to_objgraph.process_node"); out = []; inst = 0
+    pn = find_i(root, M, "parse_tree_to_objgraph.process_node"); out = []; inst = 0
     plain = next((n for n in ast.walk(pn) if isinstance(n, ast.If) and ast.unparse(n.test) == "op == 'plain'"), None)
     if plain is None: raise AnalysisError("plain assignment branch not found")
     inst += 1
@@ -348,11 +293,23 @@ def r_C02cd(root):
     lst = plain.orelse[0] if plain.orelse and isinstance(plain.orelse[0], ast.If) else None
     inst += 1
     if lst is None or "oneormore" not in ast.unparse(lst.test): raise AnalysisError("list assignment branch not found")
-    loop = next(s for s in lst.body if isinstance(s, ast.For))
-    sepif = loop.body[0] if isinstance(loop.body[0], ast.If) else None
-    apps = [c for c in calls(loop) if callee_name(c) in ("append", "insert")]
-    if not (sepif is not None and ast.unparse(sepif.test) == "n.rule_name != 'sep'" and len(loop.body) == 1 and apps and all(c.func.attr == "append" for c in apps)):
-        out.append(Finding("C02", "C02.c", M, "process_node", ast.unparse(loop.body[0].test) if sepif else "list loop", "list assignment does not append every non-separator match in input order"))
+    loop = next((s for s in lst.body if isinstance(s, ast.For)), None)
+    if loop is None: raise AnalysisError("list assignment branch: loop over the matched children not found")
+    # path form: on every path through one iteration either the child is a separator, or the path ends in an error, or the
+    # value is appended (to the attribute list or, for a reference, to the cross-reference work list); nothing is inserted
+    lv = loop.target.id if isinstance(loop.target, ast.Name) else None
+    names_, rows_ = atoms.table(loop.body, feasible=None)
+    sep_atom = next((a for a in names_ if a.replace(" ", "").replace('"', "'") in ("%s.rule_name=='sep'" % lv,)), None)
+    def _appends(row):
+        return any(isinstance(c, ast.Call) and callee_name(c) == "append" for e in row.effects for c in ast.walk(e))
+    bad_rows = [r for r in rows_ if r.exit_kind != "raise" and not (sep_atom and r.val.get(sep_atom) is True) and not _appends(r)]
+    other_filter = [a for a in names_ if a != sep_atom and any(r.val.get(a) is not None and not _appends(r) and r.exit_kind != "raise" and not (sep_atom and r.val.get(sep_atom) is True) for r in rows_)]
+    inserts = [c for c in calls(loop) if callee_name(c) == "insert"]
+    okc_ = sep_atom is not None and not bad_rows and not inserts
+    ob("C02", "C02.c", M, "process_node", "every non-separator child is appended (%d paths through one iteration)" % len(rows_), okc_)
+    if not okc_:
+        why_ = "no separator test on the child's rule name" if sep_atom is None else ("values are inserted, not appended" if inserts else "a path through the loop body neither appends the value nor is a separator (%s)" % ", ".join("%s=%s" % kv for kv in sorted(bad_rows[0].val.items()))[:160])
+        out.append(Finding("C02", "C02.c", M, "process_node", sep_atom or "list loop", "list assignment does not append every non-separator match in input order: " + why_))
     # the loop visits every child of the assignment node: its iterable is the node itself (not a slice / filter of it)
     inst += 1
     fi_pn = sem.info(pn); it = fi_pn.expand(loop.iter, at=loop.iter)
@@ -459,18 +416,34 @@ def r_C03de_C11a_C17bc(root):
     ch = {}
     for n in lang.body:
         if isinstance(n, ast.Assign) and isinstance(n.value, ast.Call) and getattr(n.value.func, "id", None) == "OrderedChoice": ch[n.targets[0].id] = [e.id for k in n.value.keywords if k.arg == "nodes" for e in k.value.elts]
-    init = find(mm, "TextXMetaModel.__init__"); var2type = {}
-    for n in own_nodes(init):
-        if isinstance(n, ast.Assign) and isinstance(n.value, ast.Call) and callee_name(n.value) == "_new_class" and isinstance(n.targets[0], ast.Name): var2type[n.targets[0].id] = n.value.args[0].value
-    for c in [c for c in calls(init, own=True) if callee_name(c) == "_new_class"]:
-        nm = c.args[0].value; inh = [var2type.get(e.id) for k in c.keywords if k.arg == "inherits" for e in k.value.elts]
-        if nm in ch:
-            inst += 1
-            if inh != ch[nm]: out.append(Finding("C03", "C03.e", "textx/metamodel.py", "TextXMetaModel.__init__", ast.unparse(c)[:90], "%s inherits %s but its ordered choice is %s" % (nm, inh, ch[nm])))
-        if nm == "OBJECT":
-            inst += 1
-            kw = {k.arg: ast.unparse(k.value) for k in c.keywords}
-            if inh != ["BASETYPE"] or kw.get("rule_type") != "RULE_ABSTRACT": out.append(Finding("C03", "C03.e", "textx/metamodel.py", "TextXMetaModel.__init__", ast.unparse(c)[:90], "OBJECT must be abstract over BASETYPE"))
+    # C03.e by evaluation (sa/pyeval.py; nothing of textX runs): the statements of __init__ that create the base classes are
+    # interpreted with a recording stand-in for _new_class, whatever their form (one statement each, a loop over a table, a dict)
+    from sa import pyeval as _pe
+    init = find(mm, "TextXMetaModel.__init__")
+    sts = [st for st in init.body if any(isinstance(c, ast.Call) and callee_name(c) == "_new_class" for c in ast.walk(st))]
+    if not sts: raise AnalysisError("TextXMetaModel.__init__: creation of the base classes (_new_class) not found")
+    i0 = init.body.index(sts[0]); i1 = init.body.index(sts[-1])
+    used_ = {n.id for st in sts for n in ast.walk(st) if isinstance(n, ast.Name) and isinstance(n.ctx, ast.Load)}
+    block = [st for st in init.body[:i1 + 1] if st in sts or (isinstance(st, ast.Assign) and all(isinstance(t, ast.Name) and t.id in used_ for t in st.targets) and isinstance(st.value, (ast.Dict, ast.List, ast.Tuple, ast.Constant, ast.Name)))]
+    made = []
+    def _rec(name, peg_rule=None, position=None, position_end=None, inherits=None, root=False, rule_type=None, **kw):
+        made.append((name, [x[".name"] if isinstance(x, dict) else x for x in (inherits or [])], rule_type)); return {".name": name, ".kind": "cls"}
+    env = {"self._new_class": _pe.PyFn(_rec)}
+    assigned = {t.id for st in block for t in ast.walk(st) if isinstance(t, ast.Name) and isinstance(t.ctx, ast.Store)}
+    for st in block:
+        for n in ast.walk(st):
+            if isinstance(n, ast.Name) and isinstance(n.ctx, ast.Load) and n.id not in assigned and n.id != "self": env.setdefault(n.id, n.id)
+    try: _pe.run_block(block, env)
+    except _pe.Unsupported as u: raise AnalysisError("TextXMetaModel.__init__: base class creation outside the evaluated subset: %s" % u)
+    except _pe.Raised as r_: raise AnalysisError("TextXMetaModel.__init__: base class creation raises %s under evaluation" % r_.cls)
+    by = {nm: (inh, rt) for nm, inh, rt in made}
+    for nm in ch:
+        inst += 1
+        if nm not in by: out.append(Finding("C03", "C03.e", "textx/metamodel.py", "TextXMetaModel.__init__", nm, "base type %s is an ordered choice in the grammar language but no class is created for it" % nm)); continue
+        if by[nm][0] != ch[nm]: out.append(Finding("C03", "C03.e", "textx/metamodel.py", "TextXMetaModel.__init__", "_new_class(%r, ...)" % nm, "%s inherits %s but its ordered choice is %s" % (nm, by[nm][0], ch[nm])))
+    inst += 1
+    if "OBJECT" not in by or by["OBJECT"][0] != ["BASETYPE"] or by["OBJECT"][1] != "RULE_ABSTRACT":
+        out.append(Finding("C03", "C03.e", "textx/metamodel.py", "TextXMetaModel.__init__", "_new_class('OBJECT', ...)", "OBJECT must be abstract over BASETYPE"))
     # C11.a
     R = "textx/scoping/rrel.py"; fo = find(load(root, R), "find_object_with_path"); inst += 1
     inner = next(n for n in ast.walk(fo) if isinstance(n, ast.For) and "get_next_matches" in ast.unparse(n.iter))
